@@ -44,7 +44,10 @@ QUERIES = {
     "cms_aod": lambda ds: ds.SelectMany("lambda e: e.TrackMuons('globalMuons')").Select("lambda m: m.pt()").AsROOTTTree("junk.root", "my_tree", ["pt"]),
     "cms_miniaod": lambda ds: ds.SelectMany("lambda e: e.Muons('slimmedMuons')").Select("lambda m: m.pt()").AsROOTTTree("junk.root", "my_tree", ["pt"]),
 }
-WORLD = {"d1": ["a.root", "b.root", "c d.root", "eé.root"], "d2": ["a.root", "x.root"], "d1/sub": ["s.root"]}
+# file names include ones that read as glob patterns matching a SIBLING (run[1].root / run1.root, a?.root / ab.root, *.root):
+# a file is named by its literal path, whatever else is in the directory
+WORLD = {"d1": ["a.root", "b.root", "c d.root", "eé.root", "run[1].root", "run1.root", "a?.root", "ab.root", "*.root"],
+         "d2": ["a.root", "x.root", "x[a-z].root", "xb.root"], "d1/sub": ["s.root"]}
 RESULT_BYTES = b"root-file-content"
 CHUNK_BYTES = {
     "ascii": b"Processing event 1\nsecond line\n",
@@ -487,6 +490,9 @@ def corpus() -> List[Dict[str, Any]]:
         out.append({**base, "backend": b, "files": [["d1", "a.root"], ["d1", "a.root"]]})
         out.append({**base, "backend": b, "files": [["d1", "a.root"], ["d2", "a.root"]]})
         out.append({**base, "backend": b, "files": [["d1", "zz.root"]]})
+        out.append({**base, "backend": b, "files": [["d1", "run[1].root"]]})
+        out.append({**base, "backend": b, "files": [["d1", "a?.root"], ["d2", "x[a-z].root"]]})
+        out.append({**base, "backend": b, "files": [["d1", "*.root"]]})
         out.append({**base, "backend": b, "files": []})
         out.append({**base, "backend": b, "files": [["d1", "a.root"]], "container": {**ok, "at_call": True, "result": False}})
         out.append({**base, "backend": b, "files": [["d1", "a.root"]], "outdir": "out"})
